@@ -360,6 +360,65 @@ Section Image.
 End Image.
 
 (* ------------------------------------------------------------------------------------------ *)
+(** * Old-style run-length coder of 8-bit rasters (hdf/src/dfrle.c), limits regenerated from the source *)
+
+(** number of leading elements of [l] equal to [b], at most [cap] (the scan loop of DFCIrle) *)
+Fixpoint run_len (b : nat) (l : list nat) (cap : nat) : nat :=
+  match cap, l with
+  | S c, x :: r => if x =? b then S (run_len b r c) else 0
+  | _, _ => 0
+  end.
+
+(** pending literal bytes: count byte (uint8) followed by the bytes *)
+Definition rle_flush (lit : list nat) : list nat :=
+  match lit with [] => [] | _ => (length lit mod 256) :: lit end.
+
+(** DFCIrle: [data] = bytes still to encode, [lit] = literal bytes copied since [begp].  A run of more than
+    dfrle_min_run equal bytes (scanned while "i + dfrle_run_window > len") is emitted as
+    (uint8)(dfrle_run_flag | run), byte; other bytes are copied and flushed when more than dfrle_lit_flush. *)
+Fixpoint rle_go (fuel : nat) (data lit : list nat) : list nat :=
+  match fuel with
+  | 0 => rle_flush lit
+  | S f =>
+    match data with
+    | [] => rle_flush lit
+    | b :: rest =>
+      let r := S (run_len b rest (dfrle_run_window - 1)) in
+      if dfrle_min_run <? r then
+        rle_flush lit ++ [Nat.lor dfrle_run_flag (r mod 256) mod 256; b] ++ rle_go f (skipn r data) []
+      else
+        let lit' := lit ++ [b] in
+        if dfrle_lit_flush <? length lit' then rle_flush lit' ++ rle_go f rest [] else rle_go f rest lit'
+    end
+  end.
+
+Definition dfrle_encode (row : list nat) : list nat := rle_go (length row) row [].
+
+(** DFCIunrle as a byte-at-a-time decoder: count byte, then literals or the byte to repeat *)
+Inductive dstate := DIdle | DLit (k : nat) | DRun (c : nat).
+
+Fixpoint unrle_sm (st : dstate) (enc : list nat) : list nat :=
+  match enc with
+  | [] => []
+  | x :: r =>
+    match st with
+    | DIdle => if Nat.land x dfrle_dec_flag =? 0
+               then match x with 0 => unrle_sm DIdle r | _ => unrle_sm (DLit x) r end
+               else unrle_sm (DRun (Nat.land x dfrle_dec_mask)) r
+    | DLit k => x :: unrle_sm (match k with S (S k') => DLit (S k') | _ => DIdle end) r
+    | DRun c => repeat x c ++ unrle_sm DIdle r
+    end
+  end.
+
+Definition dfrle_decode (enc : list nat) : list nat := unrle_sm DIdle enc.
+
+(** an RLE raster is compressed row by row (DFputcomp) and expanded row by row (DFgetcomp) *)
+Definition rows_of (w h : nat) (bytes : list nat) : list (list nat) :=
+  map (fun y => map (fun x => nth (y * w + x) bytes 0) (seq 0 w)) (seq 0 h).
+Definition rle_image_encode (w h : nat) (bytes : list nat) : list (list nat) := map dfrle_encode (rows_of w h bytes).
+Definition rle_image_decode (enc : list (list nat)) : list nat := concat (map dfrle_decode enc).
+
+(* ------------------------------------------------------------------------------------------ *)
 (** * History level (what the drivers run): images with bytes                                   *)
 
 Definition comp := list Z.
@@ -385,7 +444,7 @@ Definition group (cs n : nat) (bytes : list Z) : list comp :=
 
 Definition codec (swap : bool) (c : comp) : comp := if swap then rev c else c.
 
-Inductive storage := StPlain | StComp | StChunk.
+Inductive storage := StPlain | StComp | StChunk | StRle8 | StOld24.
 
 Record mimg := { m_g : geom; m_wil : ilace; m_ril : ilace; m_fill : option (list comp);
                  m_elt : option (list (list comp)); m_store : storage;
@@ -543,3 +602,31 @@ Definition v_walk (inil outil : ilace) (X Y nc cs : nat) (bytes : list Z) : list
   il_convert_walk inil outil X Y nc cs bytes (repeat 170%Z (length bytes)).
 Definition v_spec (inil outil : ilace) (X Y nc cs : nat) (bytes : list Z) : list Z :=
   il_convert_spec 0%Z inil outil X Y nc cs bytes.
+
+(** Old-style rasters written by DFR8addimage (1 component, optionally RLE) / DF24addimage (3 components,
+    pixel interlace) and then accessed through GR: uint8 components (GRgetiminfo reports DFNT_UCHAR8). *)
+Definition legacy_geom (w h nc : nat) : geom :=
+  {| gx := w; gy := h; gnc := nc; gcs := 1; gswap := false; gnt := DFNT_UCHAR8 |}.
+
+Definition m_legacy (w h nc : nat) (rle : bool) (bytes : list Z) : mimg :=
+  let stored := if rle then map Z.of_nat (rle_image_decode (rle_image_encode w h (map Z.to_nat bytes))) else bytes in
+  {| m_g := legacy_geom w h nc; m_wil := ILpixel; m_ril := ILpixel; m_fill := None;
+     m_elt := Some (chunk_px [] nc (w * h) (group 1 (w * h * nc) stored));
+     m_store := if rle then StRle8 else StOld24; m_lut := None; m_lil := ILpixel |}.
+
+Definition s_legacy (w h nc : nat) (bytes : list Z) : simg :=
+  {| s_g := legacy_geom w h nc; s_wil := ILpixel; s_ril := ILpixel; s_fill := None;
+     s_data := Some (chunk_px [] nc (w * h) (group 1 (w * h * nc) bytes)); s_lut := None; s_lil := ILpixel |}.
+
+(** raw element of an RLE raster: the rows' encodings, concatenated *)
+Definition m_dump_rle (m : mimg) : option (list Z) :=
+  match m_elt m with
+  | None => None
+  | Some e => Some (map Z.of_nat (concat (rle_image_encode (gx (m_g m)) (gy (m_g m))
+                                                           (map Z.to_nat (concat (concat e))))))
+  end.
+
+(** direct DFCIrle / DFCIunrle on one row: (decoded, encoded) *)
+Definition u_case (row : list Z) : list Z * list Z :=
+  let enc := dfrle_encode (map Z.to_nat row) in
+  (map Z.of_nat (dfrle_decode enc), map Z.of_nat enc).
